@@ -74,9 +74,23 @@ def run(ctx):
     # ---- plain values: accept self, generate self, reject every different value
     fixed = [float("nan"), [1.5, float("nan")], {"a": {"b": float("nan")}}, float("inf"), -0.0, True, 1, {1: 2},
              {True: 2}, [[]], {"": {}}]
+    # acyclic values that reference the same list / dict OBJECT more than once (aliasing is not
+    # a property of the value: they are plain), and equal-but-different-type twins side by side
+    aliased_src = ["(lambda r: [r, r])([1])", "[[0] * 3] * 3", "(lambda d: {'x': d, 'y': d})({'a': 1})",
+                   "(lambda e: [e, [e], {'k': e}])([])", "(lambda r: {'a': [r, r], 'b': r})([1.5, 'x'])",
+                   "[True, 1, 1.0]", "[1.0, True, 1]", "{'a': 0.0, 'b': False, 'c': 0, 'd': -0.0}", "[[1], [1.0], [True]]"]
+    aliased = [eval(a, dict(gen.NS)) for a in aliased_src]
     for i in range(n):
-        v = fixed[i] if i < len(fixed) else gen.gen_plain(r, r.randint(0, depth), nan=0.03)
-        src = gen.vsrc(v)
+        if i < len(fixed):
+            v = fixed[i]
+        elif i < len(fixed) + len(aliased):
+            v = aliased[i - len(fixed)]
+        else:
+            v = gen.gen_plain(r, r.randint(0, depth), nan=0.03)
+            if isinstance(v, list) and len(v) >= 2 and r.random() < 0.3:
+                j, k = r.sample(range(len(v)), 2)          # alias one element at a second position
+                v[k] = v[j]
+        src = aliased_src[i - len(fixed)] if len(fixed) <= i < len(fixed) + len(aliased) else gen.vsrc(v)
         record(src, v)
         dist["plain"] += 1
         if isinstance(v, (list, dict)) and v:
